@@ -78,7 +78,9 @@ def cases(draw):
             'sec_crc': draw(st.sampled_from([0, 1])), 'alterations': alts,
             # direction S: whose certificate the signer holds - its own, one without any bundle EID, one naming another
             # node (all issued by the CA the receiver trusts): the last two are the wrong key for this security source
-            'identity': draw(st.sampled_from(['own', 'own', 'own', 'none', 'other']))}
+            'identity': draw(st.sampled_from(['own', 'own', 'own', 'none', 'other'])),
+            # the symmetric key is known under the identifier 'k-mac-1', or under the empty identifier
+            'kid': draw(st.sampled_from(['k-mac-1', 'k-mac-1', '']))}
 
 
 def strategy(tier):
@@ -95,6 +97,9 @@ def enumerate_cases(tier):
             continue
         yield {'direction': direction, 'alg': algs[0], 'targets': targets, 'scope': scope, 'addl': scope % 2 == 1,
                'plen': 5, 'seed': 1, 'pcrc': 0, 'bcrc': 0, 'sec_crc': 0, 'alterations': catalogue}
+    for direction, targets in itertools.product(('A', 'B'), (['payload'], ['payload', 'ext'])):
+        yield {'direction': direction, 'alg': 5, 'targets': targets, 'scope': 0, 'addl': False, 'plen': 5, 'seed': 1, 'pcrc': 0,
+               'bcrc': 0, 'sec_crc': 0, 'alterations': catalogue, 'kid': ''}
     for alg, identity in itertools.product((-7, -35), ('none', 'other')):
         yield {'direction': 'S', 'alg': alg, 'targets': ['payload'], 'scope': 0, 'addl': False, 'plen': 5, 'seed': 1, 'pcrc': 0,
                'bcrc': 0, 'sec_crc': 0, 'alterations': [], 'identity': identity}
@@ -136,7 +141,7 @@ def sign(case, out):
     from bp.util import BundleContainer
     bundle = base_bundle(case)
     target_nums = [1 if t == 'payload' else 2 for t in case['targets']]
-    kid = 'k-mac-1'
+    kid = '' if case.get('kid') == '' else 'k-mac-1'
     if case['direction'] in ('A', 'S'):
         bw.reset()
         src = bw.Node('dtn://srcnode/', tx_routes=[('.*', 'dtn://next/', None)], name='source')
@@ -169,7 +174,7 @@ def sign(case, out):
                           addl_protected=(b'\xa0' if case.get('addl') else b''), sec_crc=case.get('sec_crc', 0))
 
 
-def receive(bundle_or_wire, alg, key_override=None, no_key=False):
+def receive(bundle_or_wire, alg, key_override=None, no_key=False, kid='k-mac-1'):
     ''' Fresh real receiver.  :return: (delivered payload or None, finish records) '''
     from vlib import bp_world as bw, ref9171 as r, bpsec_util as bu
     bw.reset()
@@ -181,7 +186,7 @@ def receive(bundle_or_wire, alg, key_override=None, no_key=False):
         bu.give_key(node, 'k-mac-2', 5, 'mac')
     else:
         if not no_key:
-            bu.give_key(node, 'k-mac-1', alg, 'mac', keybytes=key_override)
+            bu.give_key(node, kid, alg, 'mac', keybytes=key_override)
         bu.give_key(node, 'k-mac-2', alg, 'mac')
     finishes = []
     orig = node.agent._finish_bundle
@@ -204,7 +209,8 @@ def execute(case):
     if signed is None:
         return out
     alg = case['alg']
-    good_keys = bu.ref_keys(['k-mac-1', 'k-mac-2'])
+    kid = '' if case.get('kid') == '' else 'k-mac-1'
+    good_keys = bu.ref_keys([kid, 'k-mac-2'])
     sign1 = case['direction'] == 'S'
     if sign1:
         good_keys['trust-anchor-ok'] = True     # the receiver trusts the CA that issued the source certificate
@@ -221,7 +227,7 @@ def execute(case):
         if ok:
             out.fail('harness-impostor-verifies', 'the reference accepts a certificate that does not name the security source')
             return out
-        payload, fins, err, escapes = receive(signed, alg)
+        payload, fins, err, escapes = receive(signed, alg, kid=kid)
         out.count('alterations_evaluated')
         out.count('alteration:signer-identity')
         if payload is not None:
@@ -238,7 +244,7 @@ def execute(case):
     if not ok:
         out.fail('unmodified-does-not-verify:reference', 'the independent verifier rejects the unmodified BIB (direction %s)' % case['direction'])
         return out
-    payload, fins, err, escapes = receive(signed, alg)
+    payload, fins, err, escapes = receive(signed, alg, kid=kid)
     want_payload = bytes.fromhex(signed['blocks'][-1]['data'])
     if payload != want_payload:
         out.fail('unmodified-not-delivered', 'receiver with the right key did not deliver the unmodified bundle (finish %s, error %r)' % (fins, err))
@@ -265,7 +271,7 @@ def execute(case):
             mutated = signed
             key_override = bu.KEYS['k-mac-2']
             keys = dict(good_keys)
-            keys[b'k-mac-1'] = key_override
+            keys[kid.encode('ascii')] = key_override
             keys['trust-anchor-ok'] = False
             wire = r.encode(mutated)
         elif kind == 'no-key':
@@ -310,7 +316,7 @@ def execute(case):
                     verdict = None    # BIB disappeared (bit flip in its type code): nothing to verify
             except (rc.CoseError, r.RefError, ValueError, KeyError, IndexError, TypeError):
                 verdict = False
-        payload, fins, err, escapes = receive(wire, alg, key_override, no_key)
+        payload, fins, err, escapes = receive(wire, alg, key_override, no_key, kid=kid)
         delivered = payload is not None
         out.count('alterations_evaluated')
         out.count('alteration:%s' % kind)
